@@ -82,8 +82,8 @@ def check_sort_to_match(ctx):
     otm = ctx.fn(repo.func('utils.misc', 'order_to_match'))
     I = Interp(repo)
     out = I.call(otm, [symarr('names', (M,)), symarr('req', (M,))])
-    a_ = mk_fn('argsort', B(M, sym('names', M)))
-    rr = mk_fn('argsort', B(M, mk_fn('argsort', B(M, sym('req', M)))))
+    a_ = alg.array_fn('argsort', M, sym('names', M))
+    rr = alg.array_fn('argsort', M, alg.array_fn('argsort', M, sym('req', M)))
     compare(ctx, 'PERM-3', 'order_to_match', loc(otm), out, mk_fn('at', B(M, a_), P(rr)), (M,), vocab=VOCAB, fns=FNS, findings=I.findings,
             detail_ok='argsort(array)[argsort(argsort(reference))]')
     I = Interp(repo, SortHooks())
@@ -91,7 +91,7 @@ def check_sort_to_match(ctx):
                                                                                '_error': symarr('err', (M, A), unit=unit_atom('mJy')), '_apertures': symarr('cap', (A,), unit=unit_atom('au'))})
     I.call(st, [symarr('req', (M,))], selfv=me)
     req = mk_fn('strip', P(sym('req', M)))
-    order = mk_fn('at', B(M, a_), P(mk_fn('argsort', B(M, mk_fn('argsort', B(M, req))))))
+    order = mk_fn('at', B(M, a_), P(alg.array_fn('argsort', M, alg.array_fn('argsort', M, req))))
     for attr, base, dims in (('_model_names', sym('names', M), (M,)), ('_flux', sym('flux', M, A), (M, A)), ('_error', sym('err', M, A), (M, A))):
         compare(ctx, 'PERM-3', 'sort_to_match: %s' % attr.lstrip('_'), loc(st), me.attrs.get(attr), mk_fn('at', B(M, base), P(order)), dims, vocab=VOCAB, fns=FNS, findings=I.findings,
                 detail_ok='%s[order] on the model axis, order = order_to_match(names, strip(requested))' % attr.lstrip('_'))
